@@ -128,7 +128,7 @@ CLAIMED["C14"] = (
     "after the move (must-pass-through); terminators are never dispatchable so every group is flushed; the dispatcher "
     "is evaluated eagerly for every block of every function with a body; no concrete op kind is in both type sets; "
     "dispatching precedes all lowerings of dispatchable ops in every pipeline. Decides these clauses for every "
-    "execution of the pass code, not per-core traces of a particular program. Round-4 rule: both dispatch rules recognise an xDMA region by the type of the accelerator the context returns, never by the registered name (C14.xdma-by-type). Round-5 rules: every path through an iteration of the dispatcher walk that starts with ops pending collects the op or flushes the group (C14.no-skip, path enumeration plus propositional satisfiability over the branch conditions); a table of extension kernels is keyed distinctly for all extensions of XDMA_EXT_SET (C14.all-extensions, evaluated on the classes' literal supported_kernel).",
+    "execution of the pass code, not per-core traces of a particular program. Round-4 rule: both dispatch rules recognise an xDMA region by the type of the accelerator the context returns, never by the registered name (C14.xdma-by-type). Round-5 rules: every path through an iteration of the dispatcher walk that starts with ops pending collects the op or flushes the group (C14.no-skip, path enumeration plus propositional satisfiability over the branch conditions); a table of extension kernels is keyed distinctly for all extensions of XDMA_EXT_SET (C14.all-extensions, evaluated on the classes' literal supported_kernel). Round-6: caches in the dispatch-rule module are audited for keys that do not determine the verdict (C14.all-extensions).",
     WALKER_NOTE,
     "custom AST dataflow: dependency templates, must-pass-through events, lazy-evaluation (short-circuit) detection, pipeline typestate (static analysis)",
     "DESIGN.md section 5, C14",
@@ -166,7 +166,7 @@ CLAIMED["C12"] = (
     "operand; only unset function memory spaces become L3 and returns are cast to the function type's space; compile-time "
     "re-layout only for None -> dense static TSL, bailing on None, never with terminator users, non-cast users of an "
     "alloc, other references to the global or several uses of the get_global under a subview. Does not decide the byte "
-    "permutation of transform_constant nor write/read/write orders of several users (observations O-8/O-9). As built after round 2: a re-used L1 cast must be visible at the op (F-33, fixed); the copy-in goes in front of the FIRST use once some use reads the buffer (F-34, fixed; this supersedes 'before the first use that has the value among its inputs' above); a chain ending in its root's type is replaced by a value of that type (F-35, fixed); dynamic sizes of the realised buffer are memref.dim(source, i) for the DYNAMIC dimensions in order. Round-3 rule: transform_constant scatters (reshape to bounds + transpose into descending step order, or store through the address enumeration), never gathers through it (C12.const-permutation).",
+    "permutation of transform_constant nor write/read/write orders of several users (observations O-8/O-9). As built after round 2: a re-used L1 cast must be visible at the op (F-33, fixed); the copy-in goes in front of the FIRST use once some use reads the buffer (F-34, fixed; this supersedes 'before the first use that has the value among its inputs' above); a chain ending in its root's type is replaced by a value of that type (F-35, fixed); dynamic sizes of the realised buffer are memref.dim(source, i) for the DYNAMIC dimensions in order. Round-3 rule: transform_constant scatters (reshape to bounds + transpose into descending step order, or store through the address enumeration), never gathers through it (C12.const-permutation). Round-5/6 clauses (F-45, F-46 fixed): only a global whose type has no layout is re-laid-out at compile time; transform_constant refuses target layouts with a non-zero offset.",
     WALKER_NOTE,
     "custom AST dataflow: dependency templates, must-facts per path class, sibling loop agreement (static analysis)",
     "DESIGN.md section 5, C12",
@@ -221,7 +221,7 @@ CLAIMED["C08"] = (
     "extension CSR tables have csr_length entries; values named like fields sit at their field's position; per-tensor "
     "lists are replicated only under their own length test. Segments whose length depends on the operation (gemmx "
     "per-channel rescale lists) are reported as undecided, not as violations. Does not decide numeric contents. F-5 and F-7 "
-    "are listed known findings. Four-per-register packing loops of the gemmx accelerator (setup path and per-channel launch path) place channel 4r+j at the same bit offset (abstract bit placement, sibling agreement). Round-3 rules: per-streamer locals are assigned in the iteration that reads them (C08.per-streamer-fresh, F-36 fixed); the bypass bit of an extension is its position among the extensions (C08.bypass-bit). Round-4 rule: the rescale whose parameters fill the gemmx registers is located from the region's yield or by a scan of the body, not at a fixed distance behind the matmul (C08.rescale-source). Round-5 rule: a per-operand flag collected over the spatial dimensions is only raised or or-ed inside that loop (C08.broadcast-any).",
+    "are listed known findings. Four-per-register packing loops of the gemmx accelerator (setup path and per-channel launch path) place channel 4r+j at the same bit offset (abstract bit placement, sibling agreement). Round-3 rules: per-streamer locals are assigned in the iteration that reads them (C08.per-streamer-fresh, F-36 fixed); the bypass bit of an extension is its position among the extensions (C08.bypass-bit). Round-4 rule: the rescale whose parameters fill the gemmx registers is located from the region's yield or by a scan of the body, not at a fixed distance behind the matmul (C08.rescale-source). Round-5 rule: a per-operand flag collected over the spatial dimensions is only raised or or-ed inside that loop (C08.broadcast-any). Round-6 rules: a kernel loop count taken from a stride pattern is the product over all temporal bounds (C08.loop-count, F-47 fixed); gemmx packs the generic inputs at the argument indices of qmac.zp_lhs / zp_rhs as zero points of A / B (C08.zero-points).",
     "Python list-building semantics as modelled by sa/shape.py (append/extend/+/splat/comprehensions/loops/if-merging); option tests and length aliases normalised; the xDMA system type is tied to the xDMA accelerator class (frozen).",
     "sequence-shape abstract interpretation with symbolic domains and label provenance; must-facts for guards (static analysis)",
     "DESIGN.md section 5, C08",
